@@ -6,7 +6,7 @@ KEYS = ["res", "md", "pin", "msgs", "sum", "pc"]
 RULE = ("random line sequences (cmd:pause/start/stop, u8:<addr>:<value>, ioport:<port>:<value>, malformed variants: wrong field counts, "
         "non-hex, overflow, signs, empty fields, unknown verbs, non-ASCII) x 3 polling schedules; the guest runs BRA self; "
         "distinct = distinct (lines, schedule, final memory / pins / messages)")
-SHARD_TIMEOUT = 900
+SHARD_TIMEOUT = 2400
 
 def nontrivial_key(case, model):
     return (case.get("sock"), model.get("md"), model.get("pin"), model.get("msgs"))
